@@ -252,7 +252,7 @@ func execTracker(t *testing.T, plan *simkit.Plan) *simkit.Result {
 							notifyDone++
 						}
 						mu.Unlock()
-						history = appendOp(&mu, history, porcupine.Operation{ClientId: ci, Input: trIn{op: "notify"}, Call: call, Output: trOut{}, Return: stamp()})
+						appendOp(&mu, &history, porcupine.Operation{ClientId: ci, Input: trIn{op: "notify"}, Call: call, Output: trOut{}, Return: stamp()})
 						s.Logf(name, "%s", op.Kind)
 					case "terminate":
 						call := stamp()
@@ -263,7 +263,7 @@ func execTracker(t *testing.T, plan *simkit.Plan) *simkit.Result {
 						mu.Lock()
 						termReturned = true
 						mu.Unlock()
-						history = appendOp(&mu, history, porcupine.Operation{ClientId: ci, Input: trIn{op: "terminate"}, Call: call, Output: trOut{}, Return: stamp()})
+						appendOp(&mu, &history, porcupine.Operation{ClientId: ci, Input: trIn{op: "terminate"}, Call: call, Output: trOut{}, Return: stamp()})
 						s.Logf(name, "terminate")
 					case "cancel":
 						w := fmt.Sprintf("w%d", op.Int(0))
@@ -329,7 +329,7 @@ func execTracker(t *testing.T, plan *simkit.Plan) *simkit.Result {
 							ek = "other:" + err.Error()
 						}
 						s.Logf(name, "wait prev=%d -> %d %s", prev, idx, ek)
-						history = appendOp(&mu, history, porcupine.Operation{ClientId: ci, Input: trIn{op: "wait", prev: prev}, Call: call, Output: trOut{idx, ek}, Return: ret})
+						appendOp(&mu, &history, porcupine.Operation{ClientId: ci, Input: trIn{op: "wait", prev: prev}, Call: call, Output: trOut{idx, ek}, Return: ret})
 						if idx < lower {
 							s.Violate("C30", "index-backwards", "WaitForChange", "%s: WaitForChange(prev=%d) returned index %d, but %d notifications had completed before the call (index at least %d)", name, prev, idx, lower-1, lower)
 						}
@@ -424,10 +424,15 @@ func execTracker(t *testing.T, plan *simkit.Plan) *simkit.Result {
 	return res
 }
 
-func appendOp(mu *sync.Mutex, h []porcupine.Operation, op porcupine.Operation) []porcupine.Operation {
+// appendOp appends under the lock. The slice must be read and written inside the
+// critical section: two actors made runnable by one scheduler step (a notifier and
+// the waiter it woke) record their operations concurrently, and a read outside the
+// lock lost one of the two entries (seen once as an unreproducible
+// "not-linearizable" report on the unchanged tree).
+func appendOp(mu *sync.Mutex, h *[]porcupine.Operation, op porcupine.Operation) {
 	mu.Lock()
 	defer mu.Unlock()
-	return append(h, op)
+	*h = append(*h, op)
 }
 
 // -------------------------------------------------------------- coalescer
